@@ -404,6 +404,62 @@ class NeedDecision(Exception):
     """fold_paths: the scripted decisions are used up at a condition that stays symbolic."""
 
 
+def fold_stmts(fo, stmts, env):
+    """Fold statements one by one.  A statement outside the folding language is skipped -- and everything it may bind or modify (names,
+    attributes and items of stand-in objects, receivers of method calls) is replaced by an `unknown` stand-in, so that nothing derived
+    from a skipped statement can pass for a folded value (`mentions_unknown`).  Returns (value of a `return` reached or None, [(stmt, why)])."""
+    skipped, ret = [], None
+    for st in stmts:
+        try:
+            fo.stmt(st, env)
+        except _Return as r:
+            ret = r.value
+            break
+        except (Refuse, Raised) as e:
+            skipped.append((st, e))
+            for x in ast.walk(st):
+                tgt = None
+                if isinstance(x, (ast.Name, ast.Attribute, ast.Subscript)) and isinstance(getattr(x, "ctx", None), (ast.Store, ast.Del)):
+                    tgt = x
+                elif isinstance(x, ast.Call) and isinstance(x.func, ast.Attribute):
+                    tgt = x.func.value   # receiver of a method call: may have been modified in place
+                elif isinstance(x, ast.AugAssign):
+                    tgt = x.target
+                if tgt is None:
+                    continue
+                chain = []
+                while isinstance(tgt, (ast.Attribute, ast.Subscript)):
+                    chain.append(tgt)
+                    tgt = tgt.value
+                if not isinstance(tgt, ast.Name) or tgt.id in ("np", "numpy", "darsia", "math", "cv2", "warnings", "logger", "logging"):
+                    continue
+                if not chain:
+                    if isinstance(x, ast.Name) or tgt.id in env:
+                        env[tgt.id] = Opaque("unknown", tgt.id)
+                    continue
+                base = env.get(tgt.id)
+                first = chain[-1]   # the link next to the name
+                if isinstance(base, Obj) and isinstance(first, ast.Attribute):
+                    base.fields[first.attr] = Opaque("unknown", f"{tgt.id}.{first.attr}")
+                elif tgt.id in env:
+                    env[tgt.id] = Opaque("unknown", tgt.id)
+    return ret, skipped
+
+
+def mentions_unknown(*values):
+    """True if a folded value / term derives from something a skipped statement may have bound."""
+    from .terms import nf
+
+    for v in values:
+        try:
+            t = nf(v)
+        except Exception:
+            t = repr(v)
+        if "<opaque unknown" in t or "<opaque unknown" in repr(v):
+            return True
+    return False
+
+
 def fold_paths(run, max_paths=24):
     """Path-wise symbolic folding: `run(decider)` builds its inputs afresh, creates a Folder whose `decider` is the one given, folds and
     returns a result.  Every condition that stays symbolic is a case split; all decision sequences are enumerated depth first (no
